@@ -244,6 +244,40 @@ def run_profile(pid, tier, p, kind, base, seed):
     return out, violations, sample
 
 
+def model_extras(pid, tier, base):
+    """model-level only: (a) the invariants with tasks advancing one poll step at a time, interleaved with user
+    operations and cancellation (the races a multi-threaded caller can produce); (b) for C06, liveness: every
+    pending caller is eventually answered, under weak fairness of task runs and of the resolution of disk lookups
+    and origin fetches (no step bound: the workload is finite)"""
+    d = os.path.join(base, "model-extras")
+    os.makedirs(d, exist_ok=True)
+    core.copy_specs(d, {"Inflight", "MC_Inflight"})
+    th = tier == "thorough"
+    out = []
+    common = ["CHECK_DEADLOCK FALSE", "CONSTANTS", "  Keys = {1}", "  Emit = FALSE"]
+    runs = [("step", ["SPECIFICATION MCSpec"] + common + [
+        '  Kinds = {"fetch", "hfetch", "get"}', '  OptOutcomes = {"miss", "hit", "err"}', '  ReqOutcomes = {"ok", "err"}',
+        f"  Callers = {'{1, 2, 3}' if th else '{1, 2}'}", f"  MaxSteps = {10 if th else 12}", "  MaxUserOps = 2", '  Grain = "step"',
+        '  EnvOps = {"ins", "rem", "dropc", "cancel"}', "INVARIANT Inv"])]
+    if pid == "C06":
+        runs.append(("live", ["SPECIFICATION LiveSpec"] + common + [
+            "  Callers = {1, 2}", '  Kinds = {"fetch", "hfetch", "get"}' if th else '  Kinds = {"fetch", "hfetch"}',
+            '  OptOutcomes = {"miss", "hit", "err"}' if th else '  OptOutcomes = {"miss", "hit"}', '  ReqOutcomes = {"ok", "err"}',
+            "  MaxSteps = 99", f"  MaxUserOps = {2 if th else 1}", '  Grain = "run"',
+            '  EnvOps = {"ins", "rem", "dropc"}' if th else '  EnvOps = {"ins", "dropc"}',
+            "INVARIANT Inv", "PROPERTY EveryCallerAnswered"]))
+    for name, lines in runs:
+        cfg = f"X_{name}.cfg"
+        with open(os.path.join(d, cfg), "w") as f:
+            f.write("\n".join(lines) + "\n")
+        r = core.run_tlc(d, "MC_Inflight", cfg, workers=6, timeout=3000)
+        core.tlc_must_pass(r, f"MC_Inflight[{name}]")
+        out.append({"profile": f"MC_Inflight {name} ({'liveness EveryCallerAnswered' if name == 'live' else 'poll-step interleavings'})",
+                    "kind": "edge", "algo": "-", "states": r["distinct"], "transitions": r["generated"], "scripts": 0,
+                    "matched": 0, "mismatched": 0, "roots": 0, "panics": 0, "nontrivial": 0, "by_field": {}})
+    return out
+
+
 def check(pid, tier):
     from . import memcheck
     t0 = time.time()
@@ -261,6 +295,9 @@ def check(pid, tier):
             if len(samples) < 3:
                 samples.append(sample)
             core.log(json.dumps(out))
+    for r in model_extras(pid, tier, base):
+        results.append(r)
+        core.log(json.dumps(r))
     return memcheck.finish(pid, tier, t0, results, violations, samples, rule=(
         "one script per edge of the reachable graph of each bounded MC_Inflight model (environment actions: call, "
         "run task, resolve disk lookup / origin, drop caller, cancel task, user insert / remove), executed on the "
